@@ -19,12 +19,6 @@ Definition spec_matches (fl : rflags) (h : hir) (mem : list N) (out : list (N * 
   && forallb (fun ol => mem_N (fst ol + snd ol) (ends fl mem h (fst ol))) out
   && forallb (fun ol => len_choice_ok (Lens fl mem h (fst ol)) (snd ol)) out.
 
-(* per input: (corr, spec, kf) *)
-Definition one_input (d : sdesc) (h : hir) (mem : list N) (out : list (N * N)) : bool * bool * N :=
-  (matches_eqb out (model_scan d mem default_max_nb),
-   spec_matches (flags_of (s_mods d)) h mem out,
-   if kf_start_position d mem default_max_nb then 1 else 0).
-
 (* rs: per input (corr, spec, known-finding class of the input, 0 = none).  The case is in a known
    class only if every input that fails the spec is; the class reported is the largest one met. *)
 Definition combine (rs : list (bool * bool * N)) (pre_corr pre_spec : bool) : bool * bool * N :=
@@ -35,21 +29,6 @@ Definition combine (rs : list (bool * bool * N)) (pre_corr pre_spec : bool) : bo
    if negb spec && excused
    then fold_left N.max (map (fun r : bool * bool * N => if snd (fst r) then 0 else snd r) rs) 0 else 0).
 
-Fixpoint zip_inputs (d : sdesc) (h : hir) (ins : list (list N)) (outs : list (list (N * N)))
-  : list (bool * bool * N) :=
-  match ins, outs with
-  | m :: ir, o :: or => one_input d h m o :: zip_inputs d h ir or
-  | _, _ => []
-  end.
-
-(* C02: hex token AST *)
-Definition C02_case (toks : list token) (d : sdesc) (ins : list (list N)) (outs : list (list (N * N)))
-  : bool * bool * N :=
-  let h := hir_of_tokens toks in
-  combine (zip_inputs d h ins outs)
-          (hir_eqb (s_hir d) h && (length ins =? length outs)%nat)
-          (wf_hex toks).
-
 (* ------------------------------------------------------------------ C03: regex strings *)
 (* member lengths at offset o that respect `fullword`, for the plain and for the wide reading *)
 Definition members_at (md : mods) (h : hir) (mem : list N) (o : N) : list N * list N :=
@@ -57,6 +36,29 @@ Definition members_at (md : mods) (h : hir) (mem : list N) (o : N) : list N * li
    then filter (fun l => validate_fullword md mem o (o + l) MAscii) (Lens (flags_of md) mem h o) else [],
    if m_wide md
    then filter (fun l => validate_fullword md mem o (o + l) MWideStandard) (Lens (wide_flags_of md) mem h o) else []).
+
+(* known finding "alternation glue": when the literals come from an alternation whose branches have
+   different lengths and a reverse validator exists, the reverse and the forward validator of one
+   literal hit may each follow a different branch; the assembled (start, end) is then not a member.
+   Class: such a decomposition, and the scan (without the start_position mechanism) of this input
+   assembles a pair that is not a member. *)
+Definition lits_unequal (d : sdesc) : bool :=
+  match s_lits d with
+  | [] => false
+  | l :: r => existsb (fun l' => negb (length l' =? length l)%nat) r
+  end.
+
+Definition is_member (md : mods) (h : hir) (mem : list N) (o l : N) : bool :=
+  let (a, w) := members_at md h mem o in mem_N l a || mem_N l w.
+
+Definition kf_alt_glue (d : sdesc) (h : hir) (mem : list N) : bool :=
+  match s_kind d, s_pre d with
+  | KNonGreedy, Some _ | KGreedy, Some _ =>
+      lits_unequal d
+      && existsb (fun ol => negb (is_member (s_mods d) h mem (fst ol) (snd ol)))
+                 (ac_scan false d mem default_max_nb)
+  | _, _ => false
+  end.
 
 Definition spec_regex (md : mods) (h : hir) (mem : list N) (out : list (N * N)) : bool :=
   list_eqb N.eqb (map fst out)
@@ -81,7 +83,8 @@ Definition kf_fullword_other_length (md : mods) (h : hir) (mem : list N) : bool 
 Definition one_input_re (d : sdesc) (h : hir) (mem : list N) (out : list (N * N)) : bool * bool * N :=
   (matches_eqb out (model_scan d mem default_max_nb),
    spec_regex (s_mods d) h mem out,
-   if kf_fullword_other_length (s_mods d) h mem then 2
+   if kf_alt_glue d h mem then 3
+   else if kf_fullword_other_length (s_mods d) h mem then 2
    else if kf_start_position d mem default_max_nb then 1 else 0).
 
 Fixpoint zip_inputs_re (d : sdesc) (h : hir) (ins : list (list N)) (outs : list (list (N * N)))
@@ -104,3 +107,24 @@ Definition C03_case (n : node) (ci da : bool) (d : sdesc) (ins : list (list N)) 
           (hir_eqb (s_hir d) h && (length ins =? length outs)%nat && ok_subjects
            && Bool.eqb (m_dot_all (s_mods d)) da && (negb ci || m_nocase (s_mods d)))
           ok_subjects.
+
+(* ------------------------------------------------------------------ C02: hex strings *)
+Definition one_input (d : sdesc) (h : hir) (mem : list N) (out : list (N * N)) : bool * bool * N :=
+  (matches_eqb out (model_scan d mem default_max_nb),
+   spec_matches (flags_of (s_mods d)) h mem out,
+   if kf_alt_glue d h mem then 3
+   else if kf_start_position d mem default_max_nb then 1 else 0).
+
+Fixpoint zip_inputs (d : sdesc) (h : hir) (ins : list (list N)) (outs : list (list (N * N)))
+  : list (bool * bool * N) :=
+  match ins, outs with
+  | m :: ir, o :: or => one_input d h m o :: zip_inputs d h ir or
+  | _, _ => []
+  end.
+
+Definition C02_case (toks : list token) (d : sdesc) (ins : list (list N)) (outs : list (list (N * N)))
+  : bool * bool * N :=
+  let h := hir_of_tokens toks in
+  combine (zip_inputs d h ins outs)
+          (hir_eqb (s_hir d) h && (length ins =? length outs)%nat)
+          (wf_hex toks).
